@@ -116,6 +116,7 @@ func FindMapLoops(fn *ssa.Function, pred func(ssa.Value) bool) []MapLoop {
 // loop body back to the loop header (next iteration or normal exit) takes a
 // pass edge of g.  Paths that leave the function (return/panic) are fine.
 func IterationMustPass(c *core.Ctx, rule string, fn *ssa.Function, header, body *ssa.BasicBlock, loopDesc string, g NamedGuard) bool {
+	g.G = ir.AllForms(g.G)
 	c.Touch(fn)
 	construct := "each iteration of " + loopDesc + " passes " + g.Name
 	pass := ir.PassEdges(fn, g.G)
